@@ -8,8 +8,8 @@ from .. import base, drivers, explore, report
 from . import common
 
 PROP = "C10"
-KQ = ("NL", "J", "CE", "W3", "CO")
-KT = KQ + ("NLI", "W0", "WT", "CD", "BL", "CEE", "IND3")
+KQ = ("NL", "CE", "J")
+KT = KQ + ("W3", "CO", "NLI", "W0", "WT", "CD", "BL", "CEE", "IND3")
 
 
 class Mon(drivers.Monitor):
